@@ -38,7 +38,7 @@ func init() {
 		QuickRuns:    10000,
 		ThoroughSecs: 600,
 		Rule: "one run = one configuration (cipher, single/multi-user, prefixes, segmented-header allowance, fallback address, held or foreign client key, target, initial payload, " +
-			"write scripts and read paths of both sides) and one or two tamper operators (bit flip, cut+FIN, drop, duplicate, swap, splice with a recorded second session under the same or a " +
+			"write scripts and read paths of both sides) and one or two tamper operators (bit flip, cut+FIN, drop, duplicate, swap, in-session replay of an earlier element at a distance around the carry boundaries of the counter nonce, splice with a recorded second session under the same or a " +
 			"different key, response swap) bound to structural positions (prefix, salt, identity header, fixed/variable header, response header, first payload, length chunk k, payload chunk k) " +
 			"under one seeded schedule; non-trivial = at least one operator fired or the client used a key the server does not hold; " +
 			"distinct = distinct (configuration class, operators with direction and region, size buckets) shape",
@@ -52,7 +52,7 @@ func init() {
 		},
 		ExpectProbes: []string{"c02.end.error-after-clean-prefix", "c02.end.eof-at-boundary-cut", "c02.server.handshake-refused", "c02.server.request-from-clean-handshake",
 			"c02.server.fallback", "c02.fallback.payload-checked", "c02.client.response-refused", "c02.foreign-key", "c02.clean-direction-complete", "c02.prefix-delivered>0",
-			"c02.donor.same-key", "c02.donor.other-key", "c02.path.writeto"},
+			"c02.donor.same-key", "c02.donor.other-key", "c02.path.writeto", "c02.long-session"},
 	})
 }
 
@@ -253,8 +253,13 @@ func readAll(s *simrt.Sim, c netio.Conn, key uint64, off int64, rmode int) (end 
 		if m == 0 {
 			m = 1
 		}
-		b := make([]byte, m)
+		rb := util.NewReadBuf(s, m)
+		b := rb.B
 		n, err := c.Read(b)
+		if msg := rb.Check(n); msg != "" {
+			s.Fail("c02.buffer-overrun", "at stream offset %d: %s", off, msg)
+			return off, off, nil
+		}
 		if n > 0 {
 			if i := util.CheckStream(b[:n], key, off); i >= 0 {
 				return off, off + int64(i), nil
@@ -421,6 +426,23 @@ func Run(s *simrt.Sim) {
 		return sc
 	}
 	cScript, sScript := mkScript(), mkScript()
+	// Long sessions of small equal-sized chunks: the per-direction nonce is a counter, so chunks
+	// far apart (around its carry boundaries) are where an in-session replay is interesting.
+	long := ""
+	if s.GenChance(28) {
+		n := util.Pick(s, []int{130, 260, 300, 520, 600})
+		sz := util.Pick(s, []int{1, 2, 17})
+		sc := make([]int, n)
+		for i := range sc {
+			sc[i] = sz
+		}
+		if s.GenChance(128) {
+			cScript, long = sc, "c2s"
+		} else {
+			sScript, long = sc, "s2c"
+		}
+		s.Probe("c02.long-session")
+	}
 	cRmode, sRmode := s.Choose(2), s.Choose(2)
 
 	ka := newKeys(s, cfg, nil)
@@ -479,8 +501,11 @@ func Run(s *simrt.Sim) {
 	var donor *session
 	var donorKeys string
 	for i := 0; i < nOps; i++ {
-		o := &op{kind: util.Pick(s, []string{"flip", "flip", "cut", "drop", "dup", "swap", "splice", "respswap", "cut", "flip"})}
+		o := &op{kind: util.Pick(s, []string{"flip", "flip", "cut", "drop", "dup", "swap", "splice", "respswap", "cut", "flip", "replay"})}
 		o.dir = util.Pick(s, []string{"c2s", "s2c"})
+		if long != "" && s.GenChance(200) {
+			o.kind, o.dir = "replay", long
+		}
 		if o.kind == "respswap" {
 			o.dir = "s2c"
 		}
@@ -502,6 +527,19 @@ func Run(s *simrt.Sim) {
 		o.offSel = s.Choose(8)
 		o.offRnd = s.Choose(1 << 17)
 		o.bit = s.Choose(8)
+		if o.kind == "replay" {
+			// an earlier element of the same stream is delivered in place of the target; distances in
+			// elements (one AEAD operation each) around the carry boundaries of a counter nonce
+			o.back = util.Pick(s, []int{1, 2, 4, 254, 255, 256, 257, 258, 510, 512, 514, 1020, 1024})
+			if est-hs > o.back {
+				o.target = hs + o.back + s.Choose(est-hs-o.back)
+			} else if est-hs >= 3 {
+				o.back = 2
+				o.target = hs + 2 + s.Choose(est-hs-2)
+			} else {
+				o.kind = "dup"
+			}
+		}
 		if o.kind == "splice" || o.kind == "respswap" {
 			if donor == nil {
 				// A donor under the same key is recorded against the very server instance under test, so
@@ -560,7 +598,7 @@ func Run(s *simrt.Sim) {
 	s.Param("net", fmt.Sprintf("segP=%d lat=%v pswitch=%d yieldP=%d", w.SegP, w.TCPLatency, s.PSwitch, s.YieldP))
 	pd := ""
 	for _, o := range ops {
-		pd += fmt.Sprintf("%s %s elem#%d offsel=%d/%d bit=%d from=%d; ", o.kind, o.dir, o.target, o.offSel, o.offRnd, o.bit, o.from)
+		pd += fmt.Sprintf("%s %s elem#%d offsel=%d/%d bit=%d from=%d back=%d; ", o.kind, o.dir, o.target, o.offSel, o.offRnd, o.bit, o.from, o.back)
 	}
 	s.Param("ops", pd+"donor="+donorKeys)
 	s.ShapeAdd(fmt.Sprintf("k%d m%v seg%v p%v/%v fb%v fk%v P%s c%s s%s r%d%d %s%s", cfg.keyLen, cfg.multi, cfg.allowSeg, len(cfg.reqPrefix) > 0, len(cfg.respPrefix) > 0, useFallback, foreign,
